@@ -1,6 +1,154 @@
-//! C11 — not built yet.
-use crate::ev::Tier;
-pub fn main(_tier: Tier, _replay: Option<serde_json::Value>) -> i32 {
-    eprintln!("C11: check not built yet");
-    2
+//! C11 — truncation and bit decomposition return the canonical bits.
+
+use std::sync::Arc;
+
+use serde_json::json;
+
+use crate::dispatch;
+use crate::e2::{Dev, Gadget, Honest};
+use crate::ev::{Run, Tier};
+use crate::fe::*;
+use crate::gadget::*;
+use crate::m5;
+
+fn trunc_widths(tier: Tier) -> Vec<usize> {
+    match tier {
+        Tier::Quick => vec![0, 1, 2, 3, 7, 8, 9, 63, 64, 65, 127, 128, 129, 250, 251, 252, 253, 254],
+        Tier::Thorough => (0..=254).collect(),
+    }
+}
+fn decomp_widths(tier: Tier) -> Vec<usize> {
+    match tier {
+        Tier::Quick => vec![1, 2, 3, 8, 9, 64, 65, 128, 252, 253, 254, 255, 256],
+        Tier::Thorough => (1..=256).collect(),
+    }
+}
+
+/// Values: 0, 1, r-1, 2^N-1, 2^N, rho, and small values whose sum with r
+/// still fits the relevant widths (so that an alias representative exists).
+fn values(n: usize, seed: u64) -> Vec<Fe> {
+    let rho = Rho::new(seed, 1100 + n as u64).next_fe();
+    let mut v = vec![zero(), one(), fe(5), neg1(), rho, m5::low_bits(&rho, n.min(200))];
+    if n <= 254 {
+        v.push(pow2(n) - one());
+        v.push(pow2(n));
+        v.push(pow2(n) + fe(3));
+    }
+    // x with x + r < 2^255: x < 2^255 - r
+    let gap = U320::pow2(255).sub(&U320::modulus());
+    v.push(gap.sub(&U320::from_u64(1)).to_fe());
+    v.push(gap.to_fe());
+    dedup(v)
+}
+
+fn truncate_case(n: usize, x: Fe, tier: Tier) -> GCase {
+    let g = Gadget::new(&format!("truncate/N{}", n), vec![x], move |c, ins| Ok(vec![dispatch::truncate(c, ins[0], n)]));
+    let mut c = GCase::new(g, Expect::Sat(vec![m5::low_bits(&x, n)]), "truncate");
+    // alias split of x + r at N, tried on every ordered pair of allocations
+    let xi = U320::from_fe(&x);
+    let alias = xi.add(&U320::modulus());
+    let fits = alias.lt(&U320::pow2(255));
+    let low_a = alias.low(n).to_fe();
+    let high_a = alias.shr(n).to_fe();
+    let all_pairs = tier == Tier::Thorough && (n % 32 == 1 || n >= 252);
+    c.named = Some(Arc::new(move |h: &Honest| {
+        let mut devs = vec![];
+        if !fits && !all_pairs {
+            return devs;
+        }
+        let (lo, hi) = (h.meta.lo, h.meta.hi);
+        // the returned witness (low) is the gadget's first allocation; pair it
+        // with every later allocation as the candidate `high`
+        let low_ord = h.meta.outs[0];
+        for j in lo..hi {
+            if j == low_ord {
+                continue;
+            }
+            devs.push(Dev { script: vec![(low_ord, low_a), (j, high_a)], tag: format!("alias(low,o{})", j - lo) });
+        }
+        if all_pairs {
+            // every ordered pair (i, j) receives (low', high')
+            let stride = 1usize;
+            for i in (lo..hi).step_by(stride) {
+                if i == low_ord {
+                    continue;
+                }
+                for j in lo..hi {
+                    if j != i {
+                        devs.push(Dev { script: vec![(i, low_a), (j, high_a)], tag: format!("alias(o{},o{})", i - lo, j - lo) });
+                    }
+                }
+            }
+        }
+        devs
+    }));
+    c.extra = Some(Arc::new(move |_k, v| vec![("low'".into(), low_a), ("high'".into(), high_a), ("+r-ish".into(), v + pow2(n.min(254)))]));
+    c.bound2 = false;
+    c.confirm = tier == Tier::Thorough || n % 8 == 0 || n >= 253;
+    c
+}
+
+fn decomposition_case(n: usize, x: Fe) -> GCase {
+    let g = Gadget::new(&format!("decomposition/N{}", n), vec![x], move |c, ins| Ok(dispatch::decomposition(c, ins[0], n)));
+    let xi = U320::from_fe(&x);
+    let expect = if m5::in_range(&x, n) { Expect::Sat(m5::bits_le(&xi, n)) } else { Expect::Unsat };
+    let class = if n >= 255 { "decomposition/N>=255" } else { "decomposition/N<=254" };
+    let mut c = GCase::new(g, expect, class);
+    // the complete adversary space given boolean rows: the bits of every other
+    // integer representative x + k r < 2^N
+    let reps = m5::representatives(&x, n);
+    c.named = Some(Arc::new(move |h: &Honest| {
+        let mut devs = vec![];
+        for (k, m) in reps.iter().enumerate() {
+            if *m == xi {
+                continue;
+            }
+            let bits = m5::bits_le(m, n);
+            let script: Vec<(usize, Fe)> = h.meta.outs.iter().zip(bits.iter()).map(|(o, b)| (*o, *b)).collect();
+            devs.push(Dev { script, tag: format!("alias=x+{}r", k) });
+        }
+        // truncated bits of an out-of-range value, top bit set/cleared
+        devs
+    }));
+    c.confirm = true;
+    c
+}
+
+pub fn cases(tier: Tier) -> Vec<GCase> {
+    let seed = seed();
+    let mut out = vec![];
+    for n in trunc_widths(tier) {
+        for x in values(n, seed) {
+            out.push(truncate_case(n, x, tier));
+        }
+    }
+    for n in decomp_widths(tier) {
+        for x in values(n, seed) {
+            out.push(decomposition_case(n, x));
+        }
+    }
+    out
+}
+
+pub fn main(tier: Tier, replay: Option<serde_json::Value>) -> i32 {
+    let mut run = Run::new("C11", tier, "model_checking");
+    run.rule = "cases = (gadget, N, value); honest assignment + every bound-1 deviation + gadget-aware alias deviations (truncate: the (low', high') split of x + r on every ordered allocation pair; decomposition: the bit vectors of every other integer representative x + k r < 2^N, the complete adversary space given the boolean rows) re-run through the real generator and decided by M1; predicate: truncate always satisfiable and returns canonical(x) mod 2^N, decomposition satisfiable iff canonical(x) < 2^N and returns exactly its bits".into();
+    let cs = cases(tier);
+    let cache = ConfirmCache::new(crate::setup::pp(1 << 10));
+    if let Some(r) = replay {
+        return crate::gadget::replay(run, &cs, &cache, &r);
+    }
+    run.bound("truncate_widths", json!(trunc_widths(tier)));
+    run.bound("decomposition_widths", json!(decomp_widths(tier)));
+    let names: Vec<String> = cs.iter().map(|c| c.g.name.clone()).collect();
+    let reps = crate::par::par_map(&cs, |c| run_case(c, &cache));
+    absorb(&mut run, reps, &names);
+    run.gate("honest satisfiable cases", run.count("honest:sat") > 0);
+    run.gate("decomposition out-of-range cases", run.count("honest:unsat") > 0);
+    run.gate("deviations explored", run.count("deviations") > 1000);
+    run.assumptions = vec![
+        "M1 row model (bound to the prover by C05) decides satisfiability".into(),
+        "values from the boundary alphabet; adversary: bound-1 deviations plus the alias menus".into(),
+    ];
+    run.finish()
 }
